@@ -21,14 +21,13 @@ open Spec
     true / false as values, constants in returns / comparisons / indexes, zero divisors, non-indexable operands, calls
     without result, float division by zero, receive retyping; round 5: channel-direction comparison F12-11, nil operands
     and `true << x` F12-17, typed shift counts and zero-length arrays F12-18, calls in conversions F12-21, typed constants
-    to complex F12-23): a site of one of those forms that differs is labelled `other` and is a violation -/
+    to complex F12-23; round 7: destination type propagated into operator nodes F12-4 (but for declarations of interface type), nil without typed operand F12-25): a site of one of those forms that differs is labelled `other` and is a violation -/
 inductive Lax where
   | sameReflectType                 -- F12-5: distinct Go types with the same reflect.Type (defined type vs underlying, struct S0 vs S1, []N vs []int, …)
   | interfaceToConcrete             -- F12-6: an interface value used where a concrete type with (at least) its methods is required (itype.equals)
   | interfaceOperand                -- F12-6: an interface operand "equals" any type with its methods: arithmetic / comparison accepted
-  | destinationTypePropagated       -- F12-4: an operator node takes the type of the enclosing assignment / return: the assignment check is bypassed
+  | destinationTypePropagated       -- F12-4 (what is left): `var v I = a - a`: the arithmetic node takes the interface type of the declaration, no check
   | comparisonOperandOfLogical      -- F12-19: `(a < b) && c` with c of a defined boolean type has type bool (Go: the defined type)
-  | nilOperand                      -- F12-25: nil where an operand of some type is required and no other operand gives one (`nil == nil`, `nil + nil`, `<-nil`, `nil <- v`, `nil[i]`): Go panic
   | untypedOperands                 -- not a finding: two untyped operands, an untyped integer constant shifted by a variable — neither side describes them
   | other
   deriving DecidableEq, Repr, Inhabited
@@ -39,7 +38,6 @@ def Lax.name : Lax → String
   | .interfaceOperand => "interface-operand"
   | .destinationTypePropagated => "destination-type-propagated"
   | .comparisonOperandOfLogical => "comparison-operand-of-logical"
-  | .nilOperand => "nil-operand"
   | .untypedOperands => "untyped-operands"
   | .other => "other"
 
@@ -94,7 +92,6 @@ def classifyAssign (x : Opnd) (t : Ty) : Lax :=
 
 def classifyPair (x y : Opnd) : Lax :=
   match x.sh, y.sh with
-  | .nil, .nil | .nil, .uc _ _ | .uc _ _, .nil | .nil, .bl _ | .bl _, .nil | .nil, .ub | .ub, .nil => .nilOperand
   | .uc _ _, .tv t | .uc _ _, .tc t _ => if t.isIface then .interfaceOperand else .other
   | .tv t, .uc _ _ | .tc t _, .uc _ _ => if t.isIface then .interfaceOperand else .other
   | .bl _, .tv t | .tv t, .bl _ => if t.isIface then .interfaceOperand else .other
@@ -148,11 +145,7 @@ def classifyBin (op : BinOp) (z : Option Ty) (x y : Opnd) : Lax :=
      | _, _ => classifyPair x y)
   | _ =>
     match x.sh, y.sh with
-    | .tv a, .tv b | .tv a, .tc b _ | .tc a _, .tv b =>
-      if a == b && z.isSome then .destinationTypePropagated else classifyPair x y
-    | .tv a, .uc _ _ | .uc _ _, .tv a =>
-      if z.isSome && !a.isIface then .destinationTypePropagated else classifyPair x y
-    | _, _ => classifyPair x y
+    | _, _ => let _ := z; classifyPair x y
 
 def classifyShift (x y : Opnd) : Lax :=
   match x.sh, y.sh with
@@ -162,7 +155,6 @@ def classifyShift (x y : Opnd) : Lax :=
 def classifyIndex (a i : Opnd) : Lax :=
   match a.ty with
   | .map k _ => classifyAssign i (.s k)
-  | .nil => .nilOperand
   | _ => .other
 
 /-- conditions: the two sides agree on every operand (`cond_correct`, F11 and F12-17 repaired): no listed class -/
@@ -196,7 +188,7 @@ def classifyRet (T : TcFacts) (results : List STy) (vals : List (Shape × Opnd))
     | r :: rs, (sh, x) :: rest =>
       (match sh with
        | .unary | .arith .add | .arith .sub | .arith .mul | .arith .quo | .arith .and | .arith .or | .arith .xor | .arith .andnot =>
-         if assignableG x (.s r) then go rs rest else .destinationTypePropagated
+         if opResultY T x (.s r) = (if assignableG x (.s r) then Res.ok () else .err) then go rs rest else classifyAssign x (.s r)
        | _ =>
          if retValsY T [r] [(sh, x)] = (if assignableG x (.s r) then Res.ok () else .err)
          then go rs rest
@@ -207,13 +199,13 @@ def classifyRet (T : TcFacts) (results : List STy) (vals : List (Shape × Opnd))
 def classifyAssignStmt (sh : Shape) (t : Ty) (x : Opnd) : Lax :=
   match sh with
   | .plain | .arith .land | .arith .lor => classifyAssign x t
-  | _ => if assignableG x t then classifyAssign x t else .destinationTypePropagated
+  | .arith _ => if t.isIface then .destinationTypePropagated else classifyAssign x t
+  | _ => classifyAssign x t
 
 /-- since 82e65a0 a send is an assignment of the value to the element type -/
 def classifySend (c v : Opnd) : Lax :=
   match c.ty with
   | .chan _ t => classifyAssign v (.s t)
-  | .nil => .nilOperand
   | _ => .other
 
 def classifyOpAssign (op : BinOp) (t : Ty) (x : Opnd) : Lax :=
@@ -232,7 +224,7 @@ mutual
       site (unY T op x) (unG op x) .other
     | .recv e => do
       let x ← domE T env none false e
-      site (recvY T x) (recvG x) (if x.ty.isNil then .nilOperand else .other)
+      site (recvY T x) (recvG x) .other
     | .bin op a b => do
       let zc := if op.propagates then z else none
       let x ← domE T env zc false a
